@@ -66,7 +66,11 @@ theorem C12_wire_refines (c : Ctx) (ms : List WireMsg) :
           cases hs : codeStyleOk m.code with
           | false => simp [hp, hs] at hcl
           | true =>
-            simp only [hp, hs, ↓reduceIte, Option.some.injEq, Bool.false_eq_true] at hcl
+            have hk : m.kid = true := by
+              cases hk : m.kid with
+              | true => rfl
+              | false => simp [hp, hs, hk] at hcl
+            simp only [hp, hs, hk, Bool.and_self, ↓reduceIte, Option.some.injEq, Bool.false_eq_true] at hcl
             subst hcl
             by_cases hacc :
                 (stepMsg c (.req { seq := n, authentic := m.asRequest, echo := m.echo })).2 = .accepted
@@ -91,7 +95,7 @@ leaves the context as it was, whatever else it carries and whatever the AEAD wou
 theorem C12_wire_other_code_inert (c : Ctx) (m : WireMsg)
     (hr : codeIsResponse m.code = false) (hs : codeStyleOk m.code = false) :
     (unprotectWire c m).1 = c ∧ (unprotectWire c m).2 ≠ .plain .accepted :=
-  unprotectWire_other c m hr (Or.inr hs)
+  unprotectWire_other c m hr (Or.inr (Or.inl hs))
 
 /-- **C12 (forgery inert, any outer code).** A message that fails authentication on both paths
 never changes the context and is never accepted, under any outer code. -/
@@ -116,7 +120,11 @@ theorem C12_wire_forgery_inert (c : Ctx) (m : WireMsg)
         cases hs : codeStyleOk m.code with
         | false => simp [hp, hs] at hcl
         | true =>
-          simp only [hp, hs, ↓reduceIte, Option.some.injEq, Bool.false_eq_true] at hcl
+          have hk : m.kid = true := by
+            cases hk : m.kid with
+            | true => rfl
+            | false => simp [hp, hs, hk] at hcl
+          simp only [hp, hs, hk, Bool.and_self, ↓reduceIte, Option.some.injEq, Bool.false_eq_true] at hcl
           subst hcl
           rw [hstep]
           simp only [stepMsg]
@@ -159,7 +167,11 @@ theorem C12_wire_uninitialised (c : Ctx) (hwin : c.win = none) (m : WireMsg) :
         cases hs : codeStyleOk m.code with
         | false => simp [hp, hs] at hcl
         | true =>
-          simp only [hp, hs, ↓reduceIte, Option.some.injEq, Bool.false_eq_true] at hcl
+          have hk : m.kid = true := by
+            cases hk : m.kid with
+            | true => rfl
+            | false => simp [hp, hs, hk] at hcl
+          simp only [hp, hs, hk, Bool.and_self, ↓reduceIte, Option.some.injEq, Bool.false_eq_true] at hcl
           subst hcl
           constructor
           · intro hacc _
@@ -248,8 +260,8 @@ window stays uninitialised; then the genuine Echo exchange on request 5; afterwa
 recorded request is refused -/
 def exampleLost : Ctx := { size := 32, win := none, echoRecovery := some 7 }
 def exampleRecorded : List WireMsg :=
-  [⟨0, some 2, true, false, none⟩, ⟨33, some 2, true, false, none⟩, ⟨225, some 2, true, false, none⟩,
-   ⟨1, some 2, true, false, none⟩, ⟨2, some 3, true, false, none⟩, ⟨5, some 4, true, false, none⟩]
+  [⟨0, true, some 2, true, false, none⟩, ⟨33, true, some 2, true, false, none⟩, ⟨225, true, some 2, true, false, none⟩,
+   ⟨1, true, some 2, true, false, none⟩, ⟨2, true, some 3, true, false, none⟩, ⟨5, true, some 4, true, false, none⟩]
 
 example : (runWire exampleLost exampleRecorded).2 =
     [.codeRefused, .codeRefused, .codeRefused, .codeRefused, .plain .replayEcho, .plain .replayEcho] := by decide
@@ -258,13 +270,13 @@ example : ∀ m ∈ exampleRecorded, ¬ FreshProof exampleLost m := by
   intro m hm
   simp only [exampleRecorded, List.mem_cons, List.not_mem_nil, or_false] at hm
   rcases hm with h | h | h | h | h | h <;> subst h <;> simp [FreshProof, exampleLost, codeStyleOk, codeIsResponse, codeFETCH, codePOST]
-example : FreshProof exampleLost ⟨2, some 5, true, false, some 7⟩ := by
+example : FreshProof exampleLost ⟨2, true, some 5, true, false, some 7⟩ := by
   simp [FreshProof, exampleLost, codeStyleOk, codePOST, codeFETCH]
 example : wireAccepted exampleLost
-    (exampleRecorded ++ [⟨2, some 5, true, false, none⟩, ⟨2, some 5, true, false, some 7⟩,
-      ⟨2, some 3, true, false, none⟩, ⟨0, some 6, true, false, none⟩, ⟨2, some 6, true, false, none⟩,
+    (exampleRecorded ++ [⟨2, true, some 5, true, false, none⟩, ⟨2, true, some 5, true, false, some 7⟩,
+      ⟨2, true, some 3, true, false, none⟩, ⟨0, true, some 6, true, false, none⟩, ⟨2, true, some 6, true, false, none⟩,
       -- a recorded request re-sent as a response, a recorded response re-sent as a request
-      ⟨69, some 7, true, false, none⟩, ⟨2, some 7, false, true, none⟩, ⟨2, some 7, true, false, none⟩]) =
+      ⟨69, true, some 7, true, false, none⟩, ⟨2, false, some 7, false, true, none⟩, ⟨2, true, some 7, true, false, none⟩]) =
     [5, 6, 7] := by decide
 
 end Aiocoap.Oscore
